@@ -11,7 +11,7 @@ from . import gen_socket as G
 INVS = ["ContractHolds", "AtMostOne", "AbandonedClosed", "NoWedge", "NoGiveUp", "ClosedIsFinal", "QueueBound"]
 
 BASE = dict(MaxConn=3, MaxTask=10, MaxMsg=2, MaxEnv=5, H=2, ConnSubs="FALSE", MsgSubs="FALSE", SubSends="FALSE", QCap=10,
-            F_ENQ="TRUE", F_DRAIN="TRUE", F_ONE="TRUE", F_CLOSE="TRUE", F_CAP="TRUE", F_CLOCK="TRUE", F_WAITCLOSE="TRUE", F_REOPEN="TRUE", Stalls="FALSE", Record="FALSE")
+            F_ENQ="TRUE", F_DRAIN="TRUE", F_ONE="TRUE", F_CLOSE="TRUE", F_CAP="TRUE", F_CLOCK="TRUE", F_WAITCLOSE="TRUE", F_REOPEN="TRUE", F_SOLO="TRUE", Stalls="FALSE", Record="FALSE")
 
 
 def cfg(over=None, kinds="KindsBad", pols="PolMixed", invs=INVS, emit=False):
@@ -83,7 +83,10 @@ def to_harness(l2, proto, seed=0):
         elif k == "send":
             pol = {"policy": {"retries": o["retries"], "lifetime_ms": o["life"]}}
             b.nmsg = o["m"]
-            b.send(pol, kind=o["kind"])
+            msgs[o["m"]] = b.send(pol, kind=o["kind"])
+        elif k == "cancel":         # the application cancels its own send() (suspended in drain() in the model)
+            if o["m"] in msgs:
+                b.op(op="cancel", id=msgs[o["m"]])
         elif k == "resolve":
             b.op(op="resolve", how=o["how"])
         elif k == "advance":
